@@ -48,6 +48,10 @@ RULE = (
     "two sample dimensions (time x member = 3x2 quick, 4x2 thorough): EOF x every set of <= 2 (thorough <= 3) fully missing samples of the grid, whole slices and ragged "
     "sets alike, x (center, standardize) in {(T,F),(T,T),(F,F)} (+(F,T) thorough) x {no, one} missing feature (quick: the full mask set for the centred models), "
     "reference = fit of the stacked grid with those samples dropped beforehand; "
+    "accessors: ComplexEOF, HilbertEOF and their rotators (one sample dim on a 2x2 feature grid, and a 3x2 time-member grid) and ComplexMCA, HilbertMCA, MCA, CPCCA, "
+    "Complex/HilbertMCARotator x fully missing samples x one missing feature (per field) -- every public accessor on the sample axis or the feature grid "
+    "(components/scores and their _amplitude/_phase, homogeneous/heterogeneous patterns and p-values) must carry all labels, NaN at exactly the deleted ones, "
+    "and equal the accessor of the pre-deleted fit (phases on the unit circle); "
     "every isolated cell of X and of Y at fit and at transform of MCA. A case is non-trivial when a numeric comparison with the "
     "pre-deleted fit was evaluated on non-empty arrays; demanded rejections are tallied as outcome 'rejected:*'"
 )
@@ -200,6 +204,33 @@ def cases(tier, seed):
                 if not quick and fm and len(sm) > 2:
                     continue
                 out.append(dict(kind="single_mask2", model="EOF", container="da_2s", n=g, grid=[T2, M2], center=center, standardize=std, fmask=fm, smask=sm))
+    # ---- F: every public accessor on the sample axis / the feature grid (amplitude, phase, correlation patterns) of the
+    #      complex / Hilbert classes, their rotators and the cross-set classes, with fully missing samples and features
+    na = 6
+    s_q = [[], [0], [2], [na - 1], [1, 3]]
+    f_q = [[], [1]]
+    for model in ("ComplexEOF", "HilbertEOF", "ComplexEOFRotator", "HilbertEOFRotator"):
+        rot = model.endswith("Rotator")
+        for cont in ("da2", "da_2s"):
+            nn = na if cont == "da2" else 6  # one sample dim: 6 samples; two: a 3 x 2 grid
+            if quick:
+                masks = [(sm, fm) for sm in s_q for fm in f_q] if not rot else ([([2], []), ([1, 3], [1])] if cont == "da2" else [([3], [])])
+            else:
+                masks = [(sm, fm) for sm in _subsets(nn, 2) for fm in _subsets(P, 1)]
+                if rot:
+                    masks = [(sm, fm) for sm in _subsets(nn, 1) + [[1, 3]] for fm in f_q]
+            for sm, fm in masks:
+                out.append(dict(kind="accessors", model=model, container=cont, n=nn, fmask=fm, smask=sm))
+    for model in ("ComplexMCA", "HilbertMCA", "MCA", "CPCCA", "ComplexMCARotator", "HilbertMCARotator"):
+        rot = model in CROSS_BASE
+        if quick:
+            masks = [([2], [], []), ([0, 4], [0], []), ([], [], [2]), ([5], [1], [1])] if not rot else [([2], [0], [])]
+        else:
+            masks = [(sm, fx, fy) for sm in one_c + [[1, 4]] for fx, fy in (([], []), ([0], []), ([], [2]), ([1], [1]))]
+            if rot:
+                masks = [(sm, fx, fy) for sm in ([], [0], [2], [1, 4]) for fx, fy in (([], []), ([0], [2]))]
+        for sm, fx, fy in masks:
+            out.append(dict(kind="accessors", model=model, container="da", n=nc, smask=sm, fmx=fx, fmy=fy))
     # ---- E: cross-set isolated cells
     for field in ("X", "Y"):
         for stage in ("fit", "transform"):
@@ -208,7 +239,7 @@ def cases(tier, seed):
                     if quick and (i + j) % 3:
                         continue
                     out.append(dict(kind="cross_isolated", model="MCA", container="da", n=nc, stage=stage, pattern="cell", field=field, i=i, j=j))
-    order = {"single_mask": 0, "single_mask2": 0.5, "cross_mask": 1, "isolated": 2, "transform_mismatch": 3, "single_listitem": 4, "cross_isolated": 5}
+    order = {"single_mask": 0, "single_mask2": 0.5, "accessors": 0.7, "cross_mask": 1, "isolated": 2, "transform_mismatch": 3, "single_listitem": 4, "cross_isolated": 5}
     out.sort(key=lambda c: (order[c["kind"]], len(c.get("fmask", [])) + len(c.get("smask", [])) + len(c.get("smx", [])) + len(c.get("smy", []))))
     return out
 
@@ -589,6 +620,177 @@ def _run_single_mask2(case, seed):
     return acc.result(k=int(k), ragged=bool(acc.feats["ragged"] and acc.numeric))
 
 
+def _applyc(X, fmask=(), smask=()):
+    M = np.array(X, copy=True)
+    M = M.astype(complex) if np.iscomplexobj(M) else M.astype(float)
+    if len(smask):
+        M[list(smask), :] = np.nan
+    if len(fmask):
+        M[:, list(fmask)] = np.nan
+    return M
+
+
+def _polar(name, A):
+    """phases are compared on the unit circle (a phase of +pi and one of -pi are the same angle)."""
+    return np.exp(1j * np.asarray(A)) if name.endswith("phase") else np.asarray(A)
+
+
+def _emb_modes(acc, what, full, sub, keep_r, good, tol, keep_c=None):
+    """`embedded` with the numeric comparison restricted to the well-separated modes (columns); the placement of NaN
+    is judged on every column."""
+    good = np.asarray(good, bool)
+    if good.all() or keep_c is not None:
+        acc.embedded(what, full, sub, keep_r, keep_c, tol=tol, scale=max(float(np.nanmax(np.abs(sub))) if sub.size else 1.0, 1e-300))
+        return
+    full = np.array(full, copy=True)
+    inner = full[list(keep_r)]
+    fin = np.isfinite(inner[:, ~good]).all(axis=0) if inner.size else np.zeros(0, bool)
+    sub = np.array(sub, copy=True).astype(full.dtype)
+    sub[:, np.flatnonzero(~good)[fin]] = inner[:, np.flatnonzero(~good)[fin]]  # values of degenerate modes are not compared
+    acc.embedded(what, full, sub, keep_r, None, tol=tol, scale=max(float(np.nanmax(np.abs(sub))) if sub.size else 1.0, 1e-300))
+
+
+SINGLE_ACC = ("components", "components_amplitude", "components_phase", "scores", "scores_amplitude", "scores_phase")
+CROSS_ACC = ("components", "components_amplitude", "components_phase", "scores", "scores_amplitude", "scores_phase", "homogeneous_patterns", "heterogeneous_patterns")
+
+
+def _fit_complex_single(model, data, dim, k):
+    import xeofs as xe
+
+    bname = model.replace("Rotator", "")
+    base = getattr(xe.single, bname)(n_modes=k, standardize=False, use_coslat=False, solver="full", random_state=3)
+    base.fit(data, dim=dim)
+    if bname == model:
+        return base
+    rot = getattr(xe.single, model)(n_modes=k, power=1)
+    rot.fit(base)
+    return rot
+
+
+def _good_modes(sv):
+    """modes whose singular value is separated from its neighbours and from zero (vectors are then well defined)."""
+    sv = np.asarray(sv, float)
+    s1 = max(sv[0], 1e-300)
+    good = sv > 1e-6 * s1
+    for i in range(len(sv) - 1):
+        if (sv[i] - sv[i + 1]) / s1 < 1e-4:
+            good[i] = good[i + 1] = False
+    return good
+
+
+def _run_accessors(case, seed):
+    if case["container"] == "da":
+        return _run_accessors_cross(case, seed)
+    import xarray as xr
+
+    model, cont, n = case["model"], case["container"], case["n"]
+    fm, sm = case["fmask"], case["smask"]
+    cplx = model.startswith("Complex")
+    rot = model.endswith("Rotator")
+    X = D.make_matrix(n, P, "geometric", 1.0, cplx, seed, salt=31)
+    rows = [i for i in range(n) if i not in sm]
+    cols = [j for j in range(P) if j not in fm]
+    k = 2
+    modes = np.arange(1, k + 1)
+    t = _tlab(n)
+    acc = _Acc(model, container=cont, fmask=bool(fm), smask=bool(sm))
+    tol = TOL_ROT if rot else 1e-8
+    Xm = _applyc(X, fm, sm)
+    xl = np.arange(P) * 10
+    if cont == "da2":
+        masked, dim = _container(Xm, "da2"), "time"
+    else:
+        T2, M2 = 3, 2
+        masked = xr.DataArray(Xm.reshape(T2, M2, P), dims=("time", "member", "x"), coords={"time": _tlab(T2), "member": np.arange(M2) + 1, "x": xl}, name="field")
+        dim = ("time", "member")
+    plain = _plain(X, rows, cols)
+    fl = plain["f"].values
+
+    def feat(obj):
+        return _flat_features(obj, "da2", "mode", modes) if cont == "da2" else D.to_matrix(obj, ["x"], ["mode"], {"x": xl, "mode": modes})
+
+    def samp(obj):
+        return _scores_matrix(obj, t, modes) if cont == "da2" else _grid_matrix(obj, "mode", modes, 3, 2)
+
+    with warnings.catch_warnings():
+        warnings.simplefilter("ignore")
+        try:
+            d = _fit_complex_single(model, plain, "time", k)
+        except RuntimeError as e:
+            return _nonconvergence(e, lambda: _fit_complex_single(model, masked, dim, k))
+        m = _fit_complex_single(model, masked, dim, k)
+        ev_d = np.asarray(d.explained_variance().sel(mode=modes).values, float)
+        acc.vector("explained_variance", np.asarray(m.explained_variance().sel(mode=modes).values, float), ev_d, tol=tol)
+        good = np.ones(k, bool) if rot else _good_modes(np.sqrt(np.clip(ev_d, 0, None)))
+        for name in SINGLE_ACC:
+            on_features = name.startswith("components")
+            try:
+                om, od = getattr(m, name)(), getattr(d, name)()
+                if on_features:
+                    A, B, keep = feat(om), _flat_plain(od, "f", fl, "mode", modes), cols
+                else:
+                    A, B, keep = samp(om), _scores_matrix(od, t[rows], modes), rows
+                _emb_modes(acc, name, _polar(name, A), _polar(name, B), keep, good, 1e-6 if name.endswith("phase") else tol)
+            except D.LabelError as e:
+                acc.bad(name + "_labels", str(e), accessor=name)
+    return acc.result(accessors=True)
+
+
+def _run_accessors_cross(case, seed):
+    n, model = case["n"], case["model"]
+    sm, fx, fy = case["smask"], case["fmx"], case["fmy"]
+    cplx = model.startswith("Complex")
+    analytic = cplx or model.startswith("Hilbert")
+    X = D.make_matrix(n, 3, "geometric", 1.0, cplx, seed, salt=41)
+    Y = D.make_matrix(n, 3, "geometric", 1.0, cplx, seed, salt=42)
+    rows = [i for i in range(n) if i not in sm]
+    cx = [j for j in range(3) if j not in fx]
+    cy = [j for j in range(3) if j not in fy]
+    k = 2
+    modes = np.arange(1, k + 1)
+    t = _tlab(n)
+    rot = model in CROSS_BASE
+    tol = TOL_ROT if rot else 1e-8
+    acc = _Acc(model, container="da", fmask=bool(fx or fy), smask=bool(sm))
+    dx, dy = _cross_da(_applyc(X, fx, sm), "X"), _cross_da(_applyc(Y, fy, sm), "Y")
+    px, py = _cross_plain(X, rows, cx, "X"), _cross_plain(Y, rows, cy, "Y")
+    with warnings.catch_warnings():
+        warnings.simplefilter("ignore")
+        try:
+            d = _fit_cross(model, px, py, k)
+        except RuntimeError as e:
+            return _nonconvergence(e, lambda: _fit_cross(model, dx, dy, k))
+        m = _fit_cross(model, dx, dy, k)
+        sv_d = _cross_sv(d, model, modes)
+        acc.vector("singular_values", _cross_sv(m, model, modes), sv_d, tol=tol)
+        good = np.ones(k, bool) if rot else _good_modes(sv_d)
+        for name in CROSS_ACC:
+            if not analytic and name.endswith(("amplitude", "phase")):
+                continue
+            on_features = not name.startswith("scores")
+            try:
+                if name.endswith("patterns"):
+                    (a1, a2), (q1, q2) = getattr(m, name)(correction=None)
+                    (b1, b2), (r1, r2) = getattr(d, name)(correction=None)
+                    pairs = [(name + "_X", a1, b1, "X"), (name + "_Y", a2, b2, "Y"), (name + "_pvalues_X", q1, r1, "X"), (name + "_pvalues_Y", q2, r2, "Y")]
+                else:
+                    a1, a2 = getattr(m, name)()
+                    b1, b2 = getattr(d, name)()
+                    pairs = [(name + "_X", a1, b1, "X"), (name + "_Y", a2, b2, "Y")]
+                for what, om, od, fld in pairs:
+                    if on_features:
+                        dm, dd, lab, keep = ("x", "fx", dx.x.values, cx) if fld == "X" else ("y", "fy", dy.y.values, cy)
+                        A = D.to_matrix(om, [dm], ["mode"], {dm: lab, "mode": modes})
+                        B = D.to_matrix(od, [dd], ["mode"], {dd: od[dd].values, "mode": modes})
+                    else:
+                        A, B, keep = _scores_matrix(om, t, modes), _scores_matrix(od, t[rows], modes), rows
+                    loose = name.endswith("phase") or "pvalues" in what
+                    _emb_modes(acc, what, _polar(name, A), _polar(name, B), keep, good, 1e-6 if loose else max(tol, 1e-7 if name.endswith("patterns") else 0))
+            except D.LabelError as e:
+                acc.bad(name + "_labels", str(e), accessor=name)
+    return acc.result(accessors=True)
+
+
 def _run_single_listitem(case, seed):
     """the two list items miss samples at different positions: refuse, or treat the union as deleted."""
     n, model, stage = case["n"], case["model"], case["stage"]
@@ -789,7 +991,7 @@ def _cross_plain(M, rows, cols, which):
     return xr.DataArray(M[np.ix_(rows, cols)], dims=("time", dim), coords={"time": _tlab(M.shape[0])[rows], dim: np.asarray(cols) * 7 + 1}, name=which)
 
 
-CROSS_BASE = {"MCARotator": "MCA", "CPCCARotator": "CPCCA"}
+CROSS_BASE = {"MCARotator": "MCA", "CPCCARotator": "CPCCA", "ComplexMCARotator": "ComplexMCA", "HilbertMCARotator": "HilbertMCA"}
 
 
 def _fit_cross(model, dx, dy, k, pca=None):
@@ -957,6 +1159,7 @@ def _run_cross_isolated(case, seed):
 _RUN = {
     "single_mask": _run_single_mask,
     "single_mask2": _run_single_mask2,
+    "accessors": _run_accessors,
     "single_listitem": _run_single_listitem,
     "isolated": _run_isolated,
     "transform_mismatch": _run_transform_mismatch,
@@ -1008,6 +1211,13 @@ def vacuity(outcomes, results, tier):
         return "no cross-set model with the PCA step had its reconstruction checked at deleted samples"
     if not any((r.get("info") or {}).get("ragged") for r in results) and not any_viol:
         return "no two-sample-dimension input with unevenly spread missing samples was compared"
+    acc_nan = set()
+    for r in results:
+        if (r.get("info") or {}).get("accessors"):
+            acc_nan |= set(r["info"].get("nan_labels", []))
+    need_acc = {"scores_phase", "scores_amplitude", "components_phase", "components_amplitude", "scores_phase_X", "components_amplitude_Y", "homogeneous_patterns_X", "heterogeneous_patterns_Y"}
+    if not need_acc <= acc_nan and not any_viol:
+        return "accessors never checked at deleted labels: %s" % sorted(need_acc - acc_nan)
     for kd in _RUN:
         if kd not in kinds:
             return "case family %s is empty" % kd
